@@ -7,61 +7,61 @@ here = os.path.dirname(os.path.dirname(os.path.abspath(__file__)))
 CLAIMED = {
  "C01": ("argument/value provenance (escaped path, cleaned path, decode-once), must-pass-through (404/405/dispatch), bounds obligations and trie structural rules on SSA of the router plumbing",
          "Static: decides the plumbing every dispatch depends on for all requests and specs; the trie's matching semantics (which pattern matches) is value-level and not decided.",
-         "Trusts go/types+go/ssa; path.Clean, url.PathUnescape, regexp as documented.", "DESIGN.md §2 C01"),
+         "Trusts go/types+go/ssa; path.Clean, url.PathUnescape, regexp as documented.", "DESIGN.md §2 and §7, C01"),
  "C03": ("key provenance (canonical header lookup), nil-guard and totality rules, reflect-API typestate on default-derived values, constant-argument and overflow-pairing rules for strconv, error-discipline and per-location source tables, bounds obligations",
          "Static: decides lookup-by-canonical-name, total type mapping, decimal 64-bit parsing with overflow pairing, that every error/validation failure reaches the 422 accumulator and that each location reads its own source; literal denotation and validation rules are not decided.",
-         "Trusts go/types+go/ssa; strconv, reflect, go-openapi/validate as documented.", "DESIGN.md §2 C03"),
+         "Trusts go/types+go/ssa; strconv, reflect, go-openapi/validate as documented.", "DESIGN.md §2 and §7, C03"),
  "C05": ("bounds obligations with guard/induction discharge and stated caller preconditions (P-bounds), sort-before-arrange dominance, must-pass-through for base reservation, separator-set and backtracking-completeness rules on SSA of the denco trie",
          "Static: decides the never-panics clause as bounds obligations (two real out-of-range reads are known findings) and the structural necessary conditions of order independence and complete backtracking; soundness/completeness of matching is not decided.",
-         "Trusts go/types+go/ssa; trie-shape invariants listed in the invariant table.", "DESIGN.md §2 C05"),
+         "Trusts go/types+go/ssa; trie-shape invariants listed in the invariant table.", "DESIGN.md §2 and §7, C05"),
  "C09": ("who-may-write over the VTA call graph from the request entry set, freshness of per-request objects, lock pairing, context-key/type agreement and cache short-circuit (must-pass-through) on SSA",
          "Static: decides that request-reachable code writes no shared structure, that matched routes are fresh copies, and that every memoising accessor reads what it writes and recomputes only on a miss; general data-race freedom is not decided.",
-         "Trusts go/types+go/ssa and the VTA call graph (x/tools v0.29.0).", "DESIGN.md §2 C09"),
+         "Trusts go/types+go/ssa and the VTA call graph (x/tools v0.29.0).", "DESIGN.md §2 and §7, C09"),
  "C02": ("must-pass-through (CFG edge-cut reachability), value provenance and loop-iteration analysis on SSA of the security interpreter (RouteAuthenticator(s).Authenticate, Context.Authorize, newSecureAPI, buildAuthenticators)",
          "Static: decides for all requirement structures and all per-scheme outcome vectors that admission, refusal and principal/scopes provenance have the required control-flow shape; does not decide user-supplied authenticators.",
-         "Trusts go/types+go/ssa of x/tools v0.29.0; go-openapi/analysis returns the spec's requirement alternatives.", "DESIGN.md §2 C02"),
+         "Trusts go/types+go/ssa of x/tools v0.29.0; go-openapi/analysis returns the spec's requirement alternatives.", "DESIGN.md §2 and §7, C02"),
  "C06": ("must-pass-through, key/argument provenance and error-recording analysis on SSA of both content-type gates, validateContentType, runtime.ContentType, HasBody and AddRoute",
          "Static: decides that a consumer is selected and run only under HasBody, by the parsed media type, after admission, with every gate error recorded, and that the API default is always admitted; does not decide the header grammar (mime).",
-         "Trusts go/types+go/ssa; mime.ParseMediaType and swag.ContainsStringsCI as documented.", "DESIGN.md §2 C06"),
+         "Trusts go/types+go/ssa; mime.ParseMediaType and swag.ContainsStringsCI as documented.", "DESIGN.md §2 and §7, C06"),
  "C07": ("value provenance (result is an offer), edge-guard analysis (q=0 never selects), bounded-accumulator and loop-exit rules on SSA of the Accept parser, must-pass-through for the 406 gate",
          "Static: decides the structural necessary conditions of negotiation (only offers are returned, q=0 never selects, q accumulators cannot overflow, digit loop consumes all digits, 406 recorded and stops binding). The lexicographic maximum itself is not decided.",
-         "Trusts go/types+go/ssa.", "DESIGN.md §2 C07"),
+         "Trusts go/types+go/ssa.", "DESIGN.md §2 and §7, C07"),
  "C08": ("table-key provenance (normalised media types), dominance (header before body), must-pass-through (HEAD/204, JSON fallback, realm marker) on SSA of Context.Respond, errorResp and the basic authenticators",
          "Static: decides producer selection by normalised format, status provenance, no body for HEAD/204, error-responder wiring and the WWW-Authenticate realm marker for every path; does not decide producer output.",
-         "Trusts go/types+go/ssa.", "DESIGN.md §2 C08"),
+         "Trusts go/types+go/ssa.", "DESIGN.md §2 and §7, C08"),
  "C10": ("value provenance of the URL text (join-then-escape-substitute), must-pass-through on key-presence precedence, loop-shape rules for the scheme scan, error discipline on SSA of request.buildHTTP and Runtime",
          "Static: decides escape-at-substitution after path.Join, encoded query with caller-over-static precedence by key presence, whole-list https scan, scheme/host provenance; injectivity of escaping and value-level outcomes are not decided.",
-         "Trusts go/types+go/ssa; url.PathEscape, path.Join, url.Values.Encode as documented.", "DESIGN.md §2 C10"),
+         "Trusts go/types+go/ssa; url.PathEscape, path.Join, url.Values.Encode as documented.", "DESIGN.md §2 and §7, C10"),
  "C11": ("read-length typestate on io.Reader buffers, closure/captured-variable provenance for the GetBody override, pipe/writer/boundary pairing, loop-iteration rules for fields and files on SSA of request.buildHTTP",
          "Static: decides buf[:n] discipline, rest-of-file preservation, override-whenever-foreign-body, rebinding before bytes are shown, header/boundary pairing and that no field/file iteration is skipped; byte equality on the wire is not decided.",
-         "Trusts go/types+go/ssa; mime/multipart, io.Pipe as documented.", "DESIGN.md §2 C11"),
+         "Trusts go/types+go/ssa; mime/multipart, io.Pipe as documented.", "DESIGN.md §2 and §7, C11"),
  "C12": ("acquire/release pairing on all exits with defer awareness (cancel functions, response body, pipe read end, files, pipe writer), error-to-CloseWithError propagation, who-may-spawn over the call graph on SSA of Submit, buildHTTP and the keep-alive reader",
          "Static: decides that every exit releases what the call holds and that failures of the upload reach the pipe as errors; wall-clock deadlines and server behaviour are not decided.",
-         "Trusts go/types+go/ssa; net/http closes request bodies it is handed.", "DESIGN.md §2 C12"),
+         "Trusts go/types+go/ssa; net/http closes request bodies it is handed.", "DESIGN.md §2 and §7, C12"),
  "C13": ("lookup-key and value provenance for consumer selection, who-may-write on http.Response and on the shared Runtime over the call graph, sync.Once initialisation shape",
          "Static: decides consumer-by-parsed-media-type with catch-all fallback, transparent adapter, per-operation precedence and that the only shared write is the Once-guarded fresh client; response correlation under concurrency is net/http's.",
-         "Trusts go/types+go/ssa and the VTA call graph.", "DESIGN.md §2 C13"),
+         "Trusts go/types+go/ssa and the VTA call graph.", "DESIGN.md §2 and §7, C13"),
  "C14": ("principal/argument provenance, must-pass-through for not-applicable and bearer precedence (with phi-edge reasoning), sibling event-sequence agreement, constant/encoder identity on the client writers",
          "Static: decides callback-only principals, exact credential hand-over, header>query>form precedence, plain/Ctx agreement, shared header constant and StdEncoding, default-credential gating; string round-trip equality is not decided.",
-         "Trusts go/types+go/ssa; net/http BasicAuth/FormValue as documented.", "DESIGN.md §2 C14"),
+         "Trusts go/types+go/ssa; net/http BasicAuth/FormValue as documented.", "DESIGN.md §2 and §7, C14"),
  "C15": ("error-discipline (every fallible call's error reaches the return), defer-before-I/O pairing for stream and source closing, reflect-API validity typestate, buffer-privacy provenance on SSA of the built-in codecs",
          "Static: decides that codec errors are returned, streams are closed iff requested and closable sources always, typed-nil/nil operands yield errors, stored bytes never alias; round-trip equality is the stdlib encoders' and not decided.",
-         "Trusts go/types+go/ssa; encoding/json, xml, yaml.v3, bytes, io as documented.", "DESIGN.md §2 C15"),
+         "Trusts go/types+go/ssa; encoding/json, xml, yaml.v3, bytes, io as documented.", "DESIGN.md §2 and §7, C15"),
  "C16": ("must-pass-through (options applied before use, per object incl. captured ones), reflect slice typestate, retention-by-copy provenance, error discipline with io.EOF absorption, pipe-end pairing in goroutines on SSA of the CSV codec",
          "Static: decides that every source/destination kind sees the same options, SetCap/SetLen typestate, overwrite of destinations, copy-on-retain, returned parser errors and closed pipe ends; record equality with encoding/csv is not decided.",
-         "Trusts go/types+go/ssa; encoding/csv, errgroup as documented.", "DESIGN.md §2 C16"),
+         "Trusts go/types+go/ssa; encoding/csv, errgroup as documented.", "DESIGN.md §2 and §7, C16"),
  "C19": ("argument provenance of the five verify pairs, must-pass-through (all categories on success), no-early-exit loop rules, who-may-write on the registry tables, normalisation agreement between writers and readers, tabled request-time failure sites over the call graph",
          "Static: decides that validate compares the right tables with the right requirement lists completely, that Register*/readers normalise identically and are the only writers, and that request-time failure sites are exactly the tabled ones; set arithmetic on concrete inputs is not decided.",
-         "Trusts go/types+go/ssa; go-openapi/analysis requirement lists.", "DESIGN.md §2 C19"),
+         "Trusts go/types+go/ssa; go-openapi/analysis requirement lists.", "DESIGN.md §2 and §7, C19"),
  "C17": ("typestate (open/closed) and delegation-target analysis on SSA of HasBody and peekingReader, nil-receiver contradiction rule",
          "Static: decides single-buffer delegation, non-consuming probe, fast-path conditions, close-once state machine and nil-receiver safety on all paths; byte sequences under chunking are bufio's and not decided.",
-         "Trusts go/types+go/ssa; bufio.Reader as documented.", "DESIGN.md §2 C17"),
+         "Trusts go/types+go/ssa; bufio.Reader as documented.", "DESIGN.md §2 and §7, C17"),
  "C20": ("must-pass-through on string-equality interception, request-immutability (no store through the request), wiring provenance of the UI/spec constructors, html/template receiver types, constant-template field check",
          "Static: decides that Spec/serveUI intercept only on equality of the cleaned path, forward (rw, r) untouched otherwise, escape options via html/template, and that the API handlers derive the spec route from SpecURL for every parsable URL.",
-         "Trusts go/types+go/ssa; path.Clean/url.Parse/html/template as documented.", "DESIGN.md §2 C20"),
+         "Trusts go/types+go/ssa; path.Clean/url.Parse/html/template as documented.", "DESIGN.md §2 and §7, C20"),
  "C18": ("field-provenance and must-pass-through analysis on SSA/CFG of TLSClientAuth (all option combinations at once)",
          "Static: for every path of the loop-free TLSClientAuth, decides which value each security-relevant tls.Config field receives and that errors are returned; covers the whole option lattice symbolically. Does not decide crypto/tls handshake behaviour.",
-         "Trusts go/types+go/ssa of x/tools v0.29.0 and the documented meaning of tls.Config fields.", "DESIGN.md §2 C18"),
+         "Trusts go/types+go/ssa of x/tools v0.29.0 and the documented meaning of tls.Config fields.", "DESIGN.md §2 and §7, C18"),
 }
 NOT_APPLICABLE = {
  "C04": "Round-trip equality between two programs over the whole value space of every parameter position: no clause of its own is visible in code shape; its structural halves are decided under C01 (decode once), C03 (canonical header lookup), C10 (escape at substitution), C11 (body bytes), C13 (response adapter). See DESIGN.md §2 C04.",
@@ -109,7 +109,7 @@ def main():
         }],
         "checks": checks,
         "not_applicable": na,
-        "notes": "All checks are static (family: static analysis). exit 0 = every obligation discharged or listed in known-findings.json (printed as KNOWN-FINDING); exit 1 + VIOLATION line = an unlisted obligation failed; exit 2 = tool error (load failure / unresolved anchor), never a verdict. Thorough tier = same rules over 5 build configurations (incl. tests, windows, darwin, 386) plus self-validation against stored mutant patches (analysed, not executed).",
+        "notes": "All checks are static (family: static analysis). exit 0 = every obligation discharged or listed in known-findings.json (printed as KNOWN-FINDING); exit 1 + VIOLATION line = an unlisted obligation failed; exit 2 = no verdict: a tool error (load failure / unresolved anchor) or UNDECIDED (printed as such, with the recognition obligations that failed: the code was restructured beyond what the rules recognise, or the failing obligation lies in code that involves functions/types/variables unknown to the baseline the rules were confirmed against) - never a VIOLATION line. Thorough tier = same rules over 5 build configurations (incl. tests, windows, darwin, 386) plus self-validation against stored mutant patches (analysed, not executed).",
     }
     with open(os.path.join(here, "MANIFEST.json"), "w") as f:
         json.dump(m, f, indent=1)
